@@ -101,3 +101,15 @@ PROPS["C15"] = {
         {"name": "drbg-w64", "world": "W64", "src": "props/C15_drbg.c"},
     ],
 }
+
+PROPS["C14"] = {
+    "level": "exploration",
+    "technique": "bounded-exhaustive enumeration over complete ranges of message/key/output lengths (every length 0..300/600, every key x message length pair in a grid, every plaintext length 0..80 and every byte of the last two ciphertext blocks x a xor alphabet) of the real md_*/bc_* code against OpenSSL EVP and own RFC 7693 / RFC 9380 / MGF1 / KDF2 references",
+    "level_text": "Every message length in a range that covers every residue modulo both block sizes several times (and the 55/56/63/64/111/112/127/128 padding boundaries) with four byte patterns for SHA-224/256/384/512 and BLAKE2s-160/256; HMAC on a grid of 12 key lengths x every message length 0..150 (thorough: every pair up to 300); MGF1/KDF2 for every output length 0..130 and larger boundary sizes; expand_message_xmd for four hashes over output/message/DST length alphabets incl. the 255-block maximum and the out-of-range refusals; AES-CBC for the three key sizes (and invalid ones) x every plaintext length 0..80, decryption of every produced ciphertext, ciphertext mutation operators deciding with the reference whether the PKCS#7 padding is still valid.",
+    "level_note": "Trusted: OpenSSL 3 EVP (second, independent implementation), ref_hash.h pieces (BLAKE2s self-checked against EVP at 256 bits at start-up). Not reached: messages >= 2^32 bytes (length-field high word).",
+    "rule": "cases are (primitive, lengths, pattern) by odometer; all non-trivial; distinct by 64-bit hash.",
+    "assumptions": ["OpenSSL implements FIPS 180-4, RFC 7693, RFC 2104, FIPS 197 / SP 800-38A correctly", "MD_MAP = SHA-256 for md_hmac/md_kdf/md_mgf (shipped default)"],
+    "jobs": [
+        {"name": "hash-w64", "world": "W64", "src": "props/C14_hash.c"},
+    ],
+}
